@@ -3,6 +3,7 @@
   All statements are for every mode, identity, auxiliary-gid list and 32-bit request word.
 -/
 import Absnfs.Access
+import Absnfs.Auth
 open Absnfs
 
 namespace Props.C12
@@ -100,5 +101,36 @@ example : accessReply 0o750 false false 1001 101 [100] 1000 100 0x3f = 0x21 := b
 example : accessReply 0o757 true false 1000 100 [] 1000 100 0x3f = 0x3f := by decide
 example : accessReply 0o057 true false 1000 100 [] 1000 100 0x3f = 0 := by decide
 example : accessReply 0o777 true true 0 0 [] 5 5 0xffffffff = 0x23 := by decide
+
+/-! ### the identity the rules are applied to is the squashed one (C10 ∘ C12; the driver's `accessq`) -/
+
+/-- on an `all`-squashing export every AUTH_SYS caller — uid 0 and members of the file's group through an auxiliary
+    gid included — is judged by the "other" bits of an object that nobody (65534) neither owns nor shares a group with -/
+theorem all_squash_judged_as_other (mode : Nat) (c : Identity) (fu fg : Nat) (hu : fu ≠ nobody) (hg : fg ≠ nobody) :
+    selectPerm mode (squash .all c).uid (squash .all c).gid (squash .all c).aux fu fg = mode &&& 7 := by
+  have hn : nobody = 65534 := rfl
+  apply other_bits
+  · simp [squash, hn]
+  · simp only [squash]; exact fun h => hu h.symm
+  · simp only [squash]; exact fun h => hg h.symm
+  · simp only [squash, List.mem_map, not_exists, not_and]
+    intro g _ h; exact hg h.symm
+
+/-- on a `root`-squashing export uid 0 has no override and gid 0 (primary or auxiliary) gives no group class -/
+theorem root_squash_no_override (mode : Nat) (c : Identity) (fu fg : Nat) (h0 : c.uid = 0) (hu : fu ≠ nobody)
+    (hg : fg ≠ nobody) (ha : ∀ g ∈ c.aux, g = 0 ∨ g ≠ fg) :
+    selectPerm mode (squash .root c).uid (squash .root c).gid (squash .root c).aux fu fg = mode &&& 7 := by
+  have hn : nobody = 65534 := rfl
+  apply other_bits
+  · simp [squash, h0, hn]
+  · simp only [squash, h0, if_true]; exact fun h => hu h.symm
+  · simp only [squash, h0, if_true]; exact fun h => hg h.symm
+  · simp only [squash, List.mem_map, not_exists, not_and]
+    intro g hgm h
+    rcases ha g hgm with h1 | h1
+    · rw [h1] at h; simp at h; exact hg h.symm
+    · by_cases hz : g = 0
+      · rw [hz] at h; simp at h; exact hg h.symm
+      · simp [hz] at h; exact h1 h
 
 end Props.C12
